@@ -23,7 +23,7 @@ ASSUMPTIONS = ["nvmon.ref exact reference (piece polynomials, truncated power-se
 FLOORS = {'quick': {'curve-ders': 1500, 'surface-ders': 600, 'alt-evaluator': 400, 'above-degree': 200, 'hodograph': 150,
                     'tangent': 150, 'normal': 60, 'hook:derivatives': 100},
           'thorough': {'curve-ders': 15000, 'surface-ders': 6000, 'alt-evaluator': 4000}}
-MANDATORY_TAGS = ['tangent:int-parameter', 'short-knot-range', 'curve', 'surface', 'rational', 'u:knot', 'u:knot_full', 'u:end', 'order>degree', 'eval2', 'deg1-order>=2',
+MANDATORY_TAGS = ['large', 'tangent:int-parameter', 'short-knot-range', 'curve', 'surface', 'rational', 'u:knot', 'u:knot_full', 'u:end', 'order>degree', 'eval2', 'deg1-order>=2',
                   'mixed-partial', 'unclamped', 'unnormalized']
 TECHNIQUE = ("runtime monitoring: exact-arithmetic post-condition (piece-polynomial derivatives / power-series division) on every "
              "derivatives() call, hodograph constructor and tangent/normal query of a class-enumerating seeded workload; "
@@ -204,6 +204,8 @@ def gen(rng, tier, shard, nshards):
                 a_ = rng.choice([0.0, 5.0])
                 kw.update(normalize=False, lohi=(a_, a_ + rng.choice([2.0 ** -20, 2.0 ** -17, 2.0 ** 10])), rational=rng.random() < 0.3)
         pd = kw.pop('pdim')
+        if not (shard == 0 and i < len(forced)) and 'lohi' not in kw and rng.random() < 0.07:
+            kw['large'] = True         # degree up to 10 / 40 control points; surfaces with one long, high-degree direction
         kw.setdefault('maxdeg', {1: 6, 2: 3}[pd])
         kw.setdefault('maxextra', {1: 6, 2: 4}[pd])
         if 'wcls' not in kw and rng.random() < 0.8:
@@ -228,6 +230,8 @@ def check(case, ctx):
     ctx.nontriv(interior or (sd['rational'] and len(set(sd.get('weights', [1]))) > 1))
     if any(abs(kv[-1] - kv[0]) < 1e-4 for kv in sd['kvs']):
         ctx.tag('short-knot-range')
+    if sd.get('large'):
+        ctx.tag('large')
     ctx.tag('curve' if pdim == 1 else 'surface', 'rational' if sd['rational'] else 'nonrational',
             'normalized' if sd['normalize_kv'] else 'unnormalized')
     if any(c.startswith('unclamped') for c in sd['kvcls']):
